@@ -344,6 +344,18 @@ class Exec(object):
                 return FuncRef(mod.functions[name])
             if name in mod.classes:
                 return ClassRef(mod.classes[name])
+            # a module-level constant: bound by exactly one plain top-level assignment and never reassigned by a function (`global` + store)
+            ta = getattr(mod, '_toplevel_assigns', None)
+            if ta is None:
+                ta = {}
+                for st in mod.body:
+                    if st.k == 'Assign' and len(st.targets) == 1 and st.targets[0].k == 'Name':
+                        ta.setdefault(st.targets[0].id, []).append(st.value)
+                mod._toplevel_assigns = ta
+            if name in ta and len(ta[name]) == 1 and name not in mutable_globals(mod):
+                v = self.eval(ta[name][0])
+                g[name] = v
+                return v
         from . import builtins_ as bi
         if mod is not None:
             # names bound by module-level import statements
